@@ -477,9 +477,10 @@ pub fn check(property: &'static str) -> i32 {
         json!(confs(thorough).iter().map(|c| format!("{c:?}")).collect::<Vec<_>>()),
     );
     rep.extra.insert(
-        "programs".into(),
+        "program_names".into(),
         json!(programs(thorough).iter().map(|p| p.0.clone()).collect::<Vec<_>>()),
     );
+    rep.extra.insert("programs".into(), json!(programs(thorough).len()));
     if t.capped > 0 {
         rep.cap(format!("{} (program, conf) pairs hit the state cap {max_states}", t.capped));
     }
